@@ -5,6 +5,9 @@ import JominiModel.Model.TextDe
 import JominiModel.Spec.TextDoc
 import JominiModel.Proofs.TextDeTapeNested
 import JominiModel.Model.TextReader
+import JominiModel.Spec.TextReader
+import JominiModel.Proofs.TextReaderFaithful
+import JominiModel.Props.C07
 /-
 C02 end to end at the model level, from BYTES to VALUE: the text tape parser model (`TextTape.parse`,
 slice C01) composed with the tape deserializer model (`TextDe.deTape`, this slice).
@@ -482,5 +485,494 @@ theorem C02_paths_end_to_end_partial (enc : TextDe.Enc) (ty : TextDe.Ty) (fs : J
 /-- the missing lemma holds on C01's example document `a={1 {b=c} {}} d={{x}}` + newline -/
 example : SliceLexFaithful exampleTree [10] := by
   constructor <;> decide +kernel
+
+/-! ### bridge to the reader slice's faithfulness theorem (C07) -/
+
+theorem isBoundary_eq (b : UInt8) : TextTape.isBoundary b = TextReader.isBoundary b := by
+  have h : ∀ n, n < 256 → TextTape.isBoundary (UInt8.ofNat n) = TextReader.isBoundary (UInt8.ofNat n) := by decide +kernel
+  have := h b.toNat b.toNat_lt
+  simpa using this
+
+theorem isBlank_eq (b : UInt8) : TextTape.isBlank b = TextReader.isBlank b := by
+  have h : ∀ n, n < 256 → TextTape.isBlank (UInt8.ofNat n) = TextReader.isBlank (UInt8.ofNat n) := by decide +kernel
+  have := h b.toNat b.toNat_lt
+  simpa using this
+
+theorem quote_eq : ∀ (n : Nat) (x : Bytes) (i : Nat), x.length ≤ n →
+    TextReader.Spec.quoteEnd x i = (TextTape.quoteClose x false).map (· + i)
+  | _, [], i, _ => by simp [TextReader.Spec.quoteEnd, TextTape.quoteClose]
+  | 0, _ :: _, i, h => by simp at h
+  | n + 1, c :: rest, i, h => by
+      by_cases hc : c = 92
+      · subst hc
+        cases rest with
+        | nil => simp [TextReader.Spec.quoteEnd, TextTape.quoteClose]
+        | cons d rest' =>
+          have ih := quote_eq n rest' (i + 2) (by simp at h; omega)
+          simp only [TextReader.Spec.quoteEnd, TextTape.quoteClose, beq_self_eq_true, ↓reduceIte, ih]
+          cases TextTape.quoteClose rest' false <;> simp; omega
+      · have hc' : (c == 92) = false := by simpa using hc
+        by_cases hq : c = 34
+        · subst hq; cases rest <;> simp [TextReader.Spec.quoteEnd, TextTape.quoteClose]
+        · have hq' : (c != 34) = true := by simpa using hq
+          have ih := quote_eq n rest (i + 1) (by simp at h; omega)
+          cases rest with
+          | nil => simp [TextReader.Spec.quoteEnd, TextTape.quoteClose, hc, hc', hq, hq']
+          | cons d r2 =>
+            simp only [TextReader.Spec.quoteEnd, TextTape.quoteClose, hc, hc', hq, hq', ↓reduceIte, Bool.false_eq_true] at ih ⊢
+            rw [ih]
+            cases (if d = 92 then Option.map (fun x => x + 1) (TextTape.quoteClose r2 true) else if d = 34 then some 0 else Option.map (fun x => x + 1) (TextTape.quoteClose r2 false)) <;> simp; omega
+
+def trOp : TextTape.Op → TextReader.Op
+  | .lt => .lt | .le => .le | .gt => .gt | .ge => .ge | .ne => .ne | .exact => .exact | .eq => .eq | .exists_ => .exists_
+
+theorem rOp_trOp (o : TextTape.Op) : rOp (trOp o) = tOp o := by cases o <;> rfl
+theorem opText_trOp (o : TextTape.Op) : TextReader.opText (trOp o) = o.text := by cases o <;> rfl
+
+mutual
+/-- the C01 layout document as a C07 layout document (a header value is the header scalar followed by its
+body as the next member) -/
+def toDV : JVal → TextReader.DVal
+  | .scal g s => .scal g s.quoted s.bytes
+  | .empty g gc => .cont g .nil gc
+  | .obj g g0 k g1 o v rest gc => .cont g (.field g0 k.quoted k.bytes g1 (trOp o) (toDV v) (toDM rest)) gc
+  | .arrS g g0 s0 rest gc => .cont g (.elem (.scal g0 s0.quoted s0.bytes) (toDMs rest)) gc
+  | .arrC g first rest gc => .cont g (.elem (toDV first) (toDMs rest)) gc
+  | .ghostIn g _ _ _ => .cont g .nil []
+  | .mixed g .. => .cont g .nil []
+def toDM : JFields → TextReader.DMembers
+  | .nil => .nil
+  | .cons g0 k g1 o v rest => .field g0 k.quoted k.bytes g1 (trOp o) (toDV v) (toDM rest)
+  | .consHdr g0 k g1 o gh h body rest =>
+    .field g0 k.quoted k.bytes g1 (trOp o) (.scal gh h.quoted h.bytes) (.elem (toDV body) (toDM rest))
+  | .consImp _ _ _ rest => toDM rest
+  | .ghost _ _ rest => toDM rest
+  | .paramVal _ _ _ _ _ _ rest => toDM rest
+  | .paramObj _ _ _ _ _ _ _ _ _ _ rest => toDM rest
+def toDMs : JVals → TextReader.DMembers
+  | .nil => .nil
+  | .cons v rest => .elem (toDV v) (toDMs rest)
+end
+
+/-- reader-safe scalar: an ordinary scalar (no `@variable`) that, unquoted, does not begin with `?`
+(the reader takes a leading `?` for the `?=` operator) -/
+def SafeScal (s : Scal) : Prop := s.Valid ∧ (s.quoted = false → ∀ c r, s.bytes = c :: r → c ≠ 63)
+
+mutual
+/-- the sub-fragment the stream path expresses: as `PlainV`, without ghost `{}` and without the implicit
+`=`, all scalars reader-safe -/
+def SPlainV : JVal → Prop
+  | .scal _ s => SafeScal s
+  | .empty _ _ => True
+  | .obj _ _ k _ _ v rest _ => k.quoted = false ∧ SafeScal k ∧ SPlainV v ∧ SPlainF rest
+  | .arrS _ _ s0 rest _ => SafeScal s0 ∧ SPlainVs rest
+  | .arrC _ first rest _ => SPlainV first ∧ SPlainVs rest
+  | .ghostIn .. => False
+  | .mixed .. => False
+def SPlainF : JFields → Prop
+  | .nil => True
+  | .cons _ k _ _ v rest => k.quoted = false ∧ SafeScal k ∧ SPlainV v ∧ SPlainF rest
+  | .consHdr _ k _ _ _ h body rest => k.quoted = false ∧ SafeScal k ∧ h.quoted = false ∧ SafeScal h ∧ SPlainV body ∧ SPlainF rest
+  | .consImp .. => False
+  | .ghost .. => False
+  | .paramVal .. => False
+  | .paramObj .. => False
+def SPlainVs : JVals → Prop
+  | .nil => True
+  | .cons v rest => SPlainV v ∧ SPlainVs rest
+end
+
+mutual
+theorem splain_plainV : ∀ (v : JVal), SPlainV v → PlainV v
+  | .scal _ _, _ => trivial
+  | .empty _ _, _ => trivial
+  | .obj _ _ k _ _ v rest _, h => by
+      simp only [SPlainV] at h; simp only [PlainV]
+      exact ⟨h.1, splain_plainV v h.2.2.1, splain_plainF rest h.2.2.2⟩
+  | .arrS _ _ _ rest _, h => by simp only [SPlainV] at h; simp only [PlainV]; exact splain_plainVs rest h.2
+  | .arrC _ first rest _, h => by
+      simp only [SPlainV] at h; simp only [PlainV]; exact ⟨splain_plainV first h.1, splain_plainVs rest h.2⟩
+  | .ghostIn .., h => by simp [SPlainV] at h
+  | .mixed .., h => by simp [SPlainV] at h
+theorem splain_plainF : ∀ (fs : JFields), SPlainF fs → PlainF fs
+  | .nil, _ => trivial
+  | .cons _ k _ _ v rest, h => by
+      simp only [SPlainF] at h; simp only [PlainF]
+      exact ⟨h.1, splain_plainV v h.2.2.1, splain_plainF rest h.2.2.2⟩
+  | .consHdr _ k _ _ _ hd body rest, h => by
+      simp only [SPlainF] at h; simp only [PlainF]
+      exact ⟨h.1, h.2.2.1, splain_plainV body h.2.2.2.2.1, splain_plainF rest h.2.2.2.2.2⟩
+  | .consImp .., h => by simp [SPlainF] at h
+  | .ghost .., h => by simp [SPlainF] at h
+  | .paramVal .., h => by simp [SPlainF] at h
+  | .paramObj .., h => by simp [SPlainF] at h
+theorem splain_plainVs : ∀ (vs : JVals), SPlainVs vs → PlainVs vs
+  | .nil, _ => trivial
+  | .cons v rest, h => by
+      simp only [SPlainVs] at h; simp only [PlainVs]; exact ⟨splain_plainV v h.1, splain_plainVs rest h.2⟩
+end
+
+theorem scalText (s : Scal) : (TextReader.Lexeme.scalar s.quoted s.bytes).text = s.text := by
+  unfold Scal.text; cases s.quoted <;> simp [TextReader.Lexeme.text]
+
+mutual
+theorem renderV_agree : ∀ (v : JVal), SPlainV v → TextReader.renderV (toDV v) = jrenderV v
+  | .scal g s, _ => by simp [toDV, TextReader.renderV, jrenderV, scalText]
+  | .empty g gc, _ => by simp [toDV, TextReader.renderV, TextReader.renderM, jrenderV]
+  | .obj g g0 k g1 o v rest gc, h => by
+      simp only [SPlainV] at h
+      simp [toDV, TextReader.renderV, TextReader.renderM, jrenderV, scalText, opText_trOp,
+        renderV_agree v h.2.2.1, renderM_agree rest h.2.2.2]
+  | .arrS g g0 s0 rest gc, h => by
+      simp only [SPlainV] at h
+      simp [toDV, TextReader.renderV, TextReader.renderM, jrenderV, scalText, renderMs_agree rest h.2]
+  | .arrC g first rest gc, h => by
+      simp only [SPlainV] at h
+      simp [toDV, TextReader.renderV, TextReader.renderM, jrenderV, renderV_agree first h.1, renderMs_agree rest h.2]
+  | .ghostIn .., h => by simp [SPlainV] at h
+  | .mixed .., h => by simp [SPlainV] at h
+theorem renderM_agree : ∀ (fs : JFields), SPlainF fs → TextReader.renderM (toDM fs) = jrenderF fs
+  | .nil, _ => by simp [toDM, TextReader.renderM, jrenderF]
+  | .cons g0 k g1 o v rest, h => by
+      simp only [SPlainF] at h
+      simp [toDM, TextReader.renderM, jrenderF, scalText, opText_trOp, renderV_agree v h.2.2.1, renderM_agree rest h.2.2.2]
+  | .consHdr g0 k g1 o gh hd body rest, h => by
+      simp only [SPlainF] at h
+      simp [toDM, TextReader.renderM, TextReader.renderV, jrenderF, scalText, opText_trOp,
+        renderV_agree body h.2.2.2.2.1, renderM_agree rest h.2.2.2.2.2]
+  | .consImp .., h => by simp [SPlainF] at h
+  | .ghost .., h => by simp [SPlainF] at h
+  | .paramVal .., h => by simp [SPlainF] at h
+  | .paramObj .., h => by simp [SPlainF] at h
+theorem renderMs_agree : ∀ (vs : JVals), SPlainVs vs → TextReader.renderM (toDMs vs) = jrenderVs vs
+  | .nil, _ => by simp [toDMs, TextReader.renderM, jrenderVs]
+  | .cons v rest, h => by
+      simp only [SPlainVs] at h
+      simp [toDMs, TextReader.renderM, jrenderVs, renderV_agree v h.1, renderMs_agree rest h.2]
+end
+
+/-- the reader tokens of a C07 lexeme list as the deserializer sees them -/
+def itemToks (items : List (Bytes × TextReader.Lexeme)) : List TextDe.RTok := items.map (fun x => toRTok x.2.tok)
+
+theorem itemToks_append (a b : List (Bytes × TextReader.Lexeme)) : itemToks (a ++ b) = itemToks a ++ itemToks b := by
+  simp [itemToks]
+
+theorem itemToks_cons (g : Bytes) (lx : TextReader.Lexeme) (rest : List (Bytes × TextReader.Lexeme)) :
+    itemToks ((g, lx) :: rest) = toRTok lx.tok :: itemToks rest := rfl
+theorem itemToks_nil : itemToks [] = [] := rfl
+theorem tokOpen : toRTok TextReader.Lexeme.open_.tok = .open_ := rfl
+theorem tokClose : toRTok TextReader.Lexeme.close.tok = .close := rfl
+theorem tokOp (o : TextTape.Op) : toRTok (TextReader.Lexeme.op (trOp o)).tok = .op (tOp o) := by
+  simp [TextReader.Lexeme.tok, toRTok, rOp_trOp]
+theorem scalTok' (s : Scal) : toRTok (TextReader.Lexeme.scalar s.quoted s.bytes).tok = (Leaf.mk s.bytes s.quoted).rtok := by
+  unfold Leaf.rtok
+  cases hq : s.quoted <;> simp [TextReader.Lexeme.tok, toRTok]
+theorem keyTok' (k : Scal) (hk : k.quoted = false) :
+    toRTok (TextReader.Lexeme.scalar k.quoted k.bytes).tok = TextDe.RTok.unq k.bytes := by
+  simp [TextReader.Lexeme.tok, toRTok, hk]
+
+mutual
+theorem itemsV_agree : ∀ (v : JVal), SPlainV v → itemToks (TextReader.itemsV (toDV v)) = lexNode (toNode v)
+  | .scal g s, _ => by
+      simp only [toDV, TextReader.itemsV, toNode, lexNode, itemToks_cons, itemToks_nil, scalTok']
+  | .empty g gc, _ => by
+      simp only [toDV, TextReader.itemsV, TextReader.itemsM, toNode, lexNode, lexNodes, itemToks_cons, itemToks_nil,
+        itemToks_append, tokOpen, tokClose, List.nil_append, List.cons_append]
+  | .obj g g0 k g1 o v rest gc, h => by
+      simp only [SPlainV] at h
+      simp only [toDV, TextReader.itemsV, TextReader.itemsM, toNode, lexNode, lexFields, itemToks_cons, itemToks_nil,
+        itemToks_append, tokOpen, tokClose, tokOp, keyTok' k h.1, itemsV_agree v h.2.2.1, itemsM_agree rest h.2.2.2,
+        List.cons_append, List.append_assoc]
+  | .arrS g g0 s0 rest gc, h => by
+      simp only [SPlainV] at h
+      simp only [toDV, TextReader.itemsV, TextReader.itemsM, toNode, lexNode, lexNodes, itemToks_cons, itemToks_nil,
+        itemToks_append, tokOpen, tokClose, scalTok', itemsMs_agree rest h.2, List.cons_append, List.nil_append,
+        List.append_assoc]
+  | .arrC g first rest gc, h => by
+      simp only [SPlainV] at h
+      simp only [toDV, TextReader.itemsV, TextReader.itemsM, toNode, lexNode, lexNodes, itemToks_cons, itemToks_nil,
+        itemToks_append, tokOpen, tokClose, itemsV_agree first h.1, itemsMs_agree rest h.2, List.cons_append,
+        List.append_assoc]
+  | .ghostIn .., h => by simp [SPlainV] at h
+  | .mixed .., h => by simp [SPlainV] at h
+theorem itemsM_agree : ∀ (fs : JFields), SPlainF fs → itemToks (TextReader.itemsM (toDM fs)) = lexFields (toFields fs)
+  | .nil, _ => by simp only [toDM, TextReader.itemsM, toFields, lexFields, itemToks_nil]
+  | .cons g0 k g1 o v rest, h => by
+      simp only [SPlainF] at h
+      simp only [toDM, TextReader.itemsM, toFields, lexFields, itemToks_cons, itemToks_append, tokOp, keyTok' k h.1,
+        itemsV_agree v h.2.2.1, itemsM_agree rest h.2.2.2]
+  | .consHdr g0 k g1 o gh hd body rest, h => by
+      simp only [SPlainF] at h
+      simp only [toDM, TextReader.itemsM, TextReader.itemsV, toFields, lexFields, lexNode, itemToks_cons, itemToks_nil,
+        itemToks_append, tokOp, keyTok' k h.1, keyTok' hd h.2.2.1, itemsV_agree body h.2.2.2.2.1,
+        itemsM_agree rest h.2.2.2.2.2, List.cons_append, List.nil_append, List.append_assoc]
+  | .consImp .., h => by simp [SPlainF] at h
+  | .ghost .., h => by simp [SPlainF] at h
+  | .paramVal .., h => by simp [SPlainF] at h
+  | .paramObj .., h => by simp [SPlainF] at h
+theorem itemsMs_agree : ∀ (vs : JVals), SPlainVs vs → itemToks (TextReader.itemsM (toDMs vs)) = lexNodes (toNodes vs)
+  | .nil, _ => by simp only [toDMs, TextReader.itemsM, toNodes, lexNodes, itemToks_nil]
+  | .cons v rest, h => by
+      simp only [SPlainVs] at h
+      simp only [toDMs, TextReader.itemsM, toNodes, lexNodes, itemToks_append, itemsV_agree v h.1, itemsMs_agree rest h.2]
+end
+
+/-! ### a valid C01 layout of the sub-fragment is a valid reader-safe C07 layout -/
+
+theorem gap_of_blank {g : Bytes} (h : Blank g) : TextReader.Gap g := by
+  induction h with
+  | nil => exact .nil
+  | ws c w hc _ ih => exact .ws c w (by rw [← isBlank_eq]; exact hc) ih
+  | comment body w hb _ ih => exact .comment body w (fun c hc => by simpa using hb c hc) ih
+
+theorem blank_head {g : Bytes} (h : Blank g) : ∀ c r, g = c :: r → c ≠ 61 := by
+  intro c r hg
+  cases h with
+  | nil => cases hg
+  | ws c' w hc _ =>
+    simp only [List.cons.injEq] at hg
+    obtain ⟨rfl, _⟩ := hg
+    intro h61; subst h61
+    exact absurd hc (by decide +kernel)
+  | comment body w _ _ =>
+    simp only [List.cons.injEq] at hg
+    obtain ⟨rfl, _⟩ := hg
+    decide
+
+theorem sb_of (x : Bytes) (h : TextTape.StartsBoundary x) : TextReader.StartsBoundary x := by
+  rcases h with h | ⟨c, r, h1, h2⟩
+  · exact Or.inl h
+  · exact Or.inr ⟨c, r, h1, by rw [← isBoundary_eq]; exact h2⟩
+
+theorem sb_append (a b : Bytes) (ha : a ≠ []) (h : TextTape.StartsBoundary a) : TextReader.StartsBoundary (a ++ b) := by
+  rcases h with h | ⟨c, r, h1, h2⟩
+  · exact absurd h ha
+  · exact Or.inr ⟨c, r ++ b, by simp [h1], by rw [← isBoundary_eq]; exact h2⟩
+
+theorem opText_ne (o : TextTape.Op) : o.text ≠ [] := by cases o <;> simp [TextTape.Op.text]
+
+/-- a reader-safe scalar lexes back to itself in front of `after` -/
+theorem scalValid (s : Scal) (after : Bytes) (hs : SafeScal s) (ha : s.quoted = false → TextReader.StartsBoundary after) :
+    (TextReader.Lexeme.scalar s.quoted s.bytes).Valid after := by
+  obtain ⟨hv, h63⟩ := hs
+  unfold Scal.Valid at hv
+  cases hq : s.quoted with
+  | true =>
+    simp only [hq, ↓reduceIte] at hv
+    simp only [TextReader.Lexeme.Valid]
+    rw [quote_eq _ _ 0 (Nat.le_refl _), hv]; simp
+  | false =>
+    simp only [hq, Bool.false_eq_true, ↓reduceIte] at hv
+    obtain ⟨hall, c, r, hb, hbl, h34, h64⟩ := hv
+    simp only [TextReader.Lexeme.Valid]
+    refine ⟨fun c hc => by rw [← isBoundary_eq]; exact hall c hc, ⟨c, r, hb, ?_, by simpa using h34, by simpa using h64,
+      by simpa using h63 hq c r hb⟩, ha hq⟩
+    rw [isBlank_eq] at hbl
+    simp only [TextReader.isBlank, Bool.or_eq_false_iff] at hbl
+    exact hbl.2
+
+theorem opValid (o : TextTape.Op) (after : Bytes) (h : ∃ c r, after = c :: r ∧ c ≠ 61) :
+    (TextReader.Lexeme.op (trOp o)).Valid after := by
+  obtain ⟨c, r, h1, h2⟩ := h
+  simp only [TextReader.Lexeme.Valid]
+  intro _
+  exact ⟨c, r, h1, by simpa using h2⟩
+
+/-- the text of a reader-safe scalar does not begin with `=` -/
+theorem scal_head (s : Scal) (hs : SafeScal s) (x : Bytes) : ∃ c r, s.text ++ x = c :: r ∧ c ≠ 61 := by
+  obtain ⟨hv, _⟩ := hs
+  unfold Scal.Valid at hv
+  unfold Scal.text
+  cases hq : s.quoted with
+  | true => exact ⟨34, _, by simp only [hq, ↓reduceIte, List.cons_append]; rfl, by decide⟩
+  | false =>
+    simp only [hq, Bool.false_eq_true, ↓reduceIte] at hv ⊢
+    obtain ⟨hall, c, r, hb, _, _, _⟩ := hv
+    refine ⟨c, r ++ x, by simp [hb], ?_⟩
+    intro h61; subst h61
+    have := hall 61 (by simp [hb])
+    exact absurd this (by decide +kernel)
+
+theorem gapped_head (g : Bytes) (hg : Blank g) (y : Bytes) (hy : ∃ c r, y = c :: r ∧ c ≠ 61) :
+    ∃ c r, g ++ y = c :: r ∧ c ≠ 61 := by
+  cases g with
+  | nil => simpa using hy
+  | cons c w => exact ⟨c, w ++ y, by simp, blank_head hg c w rfl⟩
+
+/-- what a value renders to does not begin with `=` (so an operator in front of it is read whole) -/
+theorem value_head (v : JVal) (after : Bytes) (hp : SPlainV v) (hv : JValidV v after) (x : Bytes) :
+    ∃ c r, jrenderV v ++ x = c :: r ∧ c ≠ 61 := by
+  cases v with
+  | scal g s =>
+    simp only [SPlainV] at hp; simp only [JValidV] at hv
+    simp only [jrenderV, List.append_assoc]
+    exact gapped_head g hv.1 _ (scal_head s hp x)
+  | empty g gc =>
+    simp only [JValidV] at hv
+    simp only [jrenderV, List.append_assoc, List.cons_append]
+    exact gapped_head g hv.1 _ ⟨123, _, rfl, by decide⟩
+  | obj g g0 k g1 o v' rest gc =>
+    simp only [JValidV] at hv
+    simp only [jrenderV, List.append_assoc, List.cons_append]
+    exact gapped_head g hv.1 _ ⟨123, _, rfl, by decide⟩
+  | arrS g g0 s0 rest gc =>
+    simp only [JValidV] at hv
+    simp only [jrenderV, List.append_assoc, List.cons_append]
+    exact gapped_head g hv.1 _ ⟨123, _, rfl, by decide⟩
+  | arrC g first rest gc =>
+    simp only [JValidV] at hv
+    simp only [jrenderV, List.append_assoc, List.cons_append]
+    exact gapped_head g hv.1 _ ⟨123, _, rfl, by decide⟩
+  | ghostIn g b1 b2 v' => simp [SPlainV] at hp
+  | mixed g g0 k g1 o v' rest gm m0 elems gc => simp [SPlainV] at hp
+
+mutual
+theorem validV_agree : ∀ (v : JVal) (after : Bytes), SPlainV v → JValidV v after → TextReader.ValidV (toDV v) after
+  | .scal g s, after, hp, hv => by
+      simp only [SPlainV] at hp; simp only [JValidV] at hv
+      simp only [toDV, TextReader.ValidV]
+      exact ⟨gap_of_blank hv.1, scalValid s after hp (fun hq => sb_of _ (hv.2.2 hq))⟩
+  | .empty g gc, after, _, hv => by
+      simp only [JValidV] at hv
+      simp only [toDV, TextReader.ValidV, TextReader.ValidM]
+      exact ⟨gap_of_blank hv.1, gap_of_blank hv.2, trivial⟩
+  | .obj g g0 k g1 o v rest gc, after, hp, hv => by
+      simp only [SPlainV] at hp; simp only [JValidV] at hv
+      obtain ⟨hg, hg0, hg1, hgc, _, hkb, hvv, hvr⟩ := hv
+      simp only [toDV, TextReader.ValidV, TextReader.ValidM, renderV_agree v hp.2.2.1, renderM_agree rest hp.2.2.2,
+        opText_trOp]
+      refine ⟨gap_of_blank hg, gap_of_blank hgc, gap_of_blank hg0, gap_of_blank hg1, ?_, ?_, ?_, ?_⟩
+      · refine scalValid k _ hp.2.1 (fun hq => ?_)
+        have := sb_append (g1 ++ o.text) (jrenderV v ++ (jrenderF rest ++ (gc ++ 125 :: after)))
+          (by simp [opText_ne]) (hkb hq)
+        simpa [List.append_assoc] using this
+      · exact opValid o _ (value_head v _ hp.2.2.1 hvv _)
+      · exact validV_agree v _ hp.2.2.1 hvv
+      · exact validM_agree rest _ hp.2.2.2 hvr
+  | .arrS g g0 s0 rest gc, after, hp, hv => by
+      simp only [SPlainV] at hp; simp only [JValidV] at hv
+      obtain ⟨hg, hg0, hgc, _, hsb, _, hvr⟩ := hv
+      simp only [toDV, TextReader.ValidV, TextReader.ValidM, renderMs_agree rest hp.2]
+      exact ⟨gap_of_blank hg, gap_of_blank hgc, ⟨gap_of_blank hg0, scalValid s0 _ hp.1 (fun hq => sb_of _ (hsb hq))⟩,
+        validMs_agree rest _ hp.2 hvr⟩
+  | .arrC g first rest gc, after, hp, hv => by
+      simp only [SPlainV] at hp; simp only [JValidV] at hv
+      obtain ⟨hg, hgc, _, hvf, hvr⟩ := hv
+      simp only [toDV, TextReader.ValidV, TextReader.ValidM, renderMs_agree rest hp.2]
+      exact ⟨gap_of_blank hg, gap_of_blank hgc, validV_agree first _ hp.1 hvf, validMs_agree rest _ hp.2 hvr⟩
+  | .ghostIn .., _, hp, _ => by simp [SPlainV] at hp
+  | .mixed .., _, hp, _ => by simp [SPlainV] at hp
+theorem validM_agree : ∀ (fs : JFields) (after : Bytes), SPlainF fs → JValidF fs after → TextReader.ValidM (toDM fs) after
+  | .nil, _, _, _ => by simp [toDM, TextReader.ValidM]
+  | .cons g0 k g1 o v rest, after, hp, hv => by
+      simp only [SPlainF] at hp; simp only [JValidF] at hv
+      obtain ⟨hg0, hg1, _, hkb, hvv, hvr⟩ := hv
+      simp only [toDM, TextReader.ValidM, renderV_agree v hp.2.2.1, renderM_agree rest hp.2.2.2, opText_trOp]
+      refine ⟨gap_of_blank hg0, gap_of_blank hg1, ?_, ?_, ?_, ?_⟩
+      · refine scalValid k _ hp.2.1 (fun hq => ?_)
+        have := sb_append (g1 ++ o.text) (jrenderV v ++ (jrenderF rest ++ after)) (by simp [opText_ne]) (hkb hq)
+        simpa [List.append_assoc] using this
+      · exact opValid o _ (value_head v _ hp.2.2.1 hvv _)
+      · exact validV_agree v _ hp.2.2.1 hvv
+      · exact validM_agree rest _ hp.2.2.2 hvr
+  | .consHdr g0 k g1 o gh hd body rest, after, hp, hv => by
+      simp only [SPlainF] at hp; simp only [JValidF] at hv
+      obtain ⟨hg0, hg1, hgh, _, hkb, _, _, hsb, _, hvb, hvr⟩ := hv
+      simp only [toDM, TextReader.ValidM, TextReader.ValidV, TextReader.renderV, TextReader.renderM, scalText,
+        renderV_agree body hp.2.2.2.2.1, renderM_agree rest hp.2.2.2.2.2, opText_trOp, List.append_assoc]
+      refine ⟨gap_of_blank hg0, gap_of_blank hg1, ?_, ?_, ⟨gap_of_blank hgh, ?_⟩, ?_, ?_⟩
+      · refine scalValid k _ hp.2.1 (fun hq => ?_)
+        have := sb_append (g1 ++ o.text) (gh ++ (hd.text ++ (jrenderV body ++ (jrenderF rest ++ after))))
+          (by simp [opText_ne]) (hkb hq)
+        simpa [List.append_assoc] using this
+      · exact opValid o _ (gapped_head gh hgh _ (scal_head hd hp.2.2.2.1 _))
+      · exact scalValid hd _ hp.2.2.2.1 (fun _ => sb_of _ hsb)
+      · exact validV_agree body _ hp.2.2.2.2.1 hvb
+      · exact validM_agree rest _ hp.2.2.2.2.2 hvr
+  | .consImp .., _, hp, _ => by simp [SPlainF] at hp
+  | .ghost .., _, hp, _ => by simp [SPlainF] at hp
+  | .paramVal .., _, hp, _ => by simp [SPlainF] at hp
+  | .paramObj .., _, hp, _ => by simp [SPlainF] at hp
+theorem validMs_agree : ∀ (vs : JVals) (after : Bytes), SPlainVs vs → JValidVs vs after → TextReader.ValidM (toDMs vs) after
+  | .nil, _, _, _ => by simp [toDMs, TextReader.ValidM]
+  | .cons v rest, after, hp, hv => by
+      simp only [SPlainVs] at hp; simp only [JValidVs] at hv
+      simp only [toDMs, TextReader.ValidM, renderMs_agree rest hp.2]
+      exact ⟨validV_agree v _ hp.1 hv.1, validMs_agree rest _ hp.2 hv.2⟩
+end
+
+/-! ### (3) unconditional: from bytes to value on the stream path -/
+
+theorem no_bom_clash (d : Bytes) (hb : hasBom d = false) : ¬∃ r', d = 0xef :: 0xbb :: 0xbf :: r' := by
+  rintro ⟨r', rfl⟩
+  simp [hasBom] at hb
+
+/-- the slice reader model is faithful on every valid layout of the stream sub-fragment (C07_slice_faithful
+through the structural map `toDM`) -/
+theorem sliceLex_faithful (fs : JFields) (gt : Bytes) (hgt : Blank gt) (hv : JValidF fs gt)
+    (hb : hasBom (jrenderF fs ++ gt) = false) (hp : SPlainF fs) : SliceLexFaithful fs gt := by
+  have hr := renderM_agree fs hp
+  obtain ⟨h1, h2, _⟩ := TextReader.slice_faithful (toDM fs) gt false (validM_agree fs gt hp hv)
+    (.gap gt (gap_of_blank hgt)) (fun _ => by rw [hr]; exact no_bom_clash _ hb)
+  simp only [TextReader.bomBytes, Bool.false_eq_true, ↓reduceIte, List.nil_append, hr] at h1 h2
+  refine ⟨h2, ?_⟩
+  rw [h1, List.map_map]
+  exact itemsM_agree fs hp
+
+/-- C02 end to end, stream path: for every document of the stream sub-fragment (`SPlainF`: scalars that are
+reader-safe -- no `@variable`, no leading `?` --, objects with unquoted keys and every operator, arrays,
+empty containers, header values; no ghost `{}`, no implicit `=`), every valid layout of it, both encodings
+and every root target type that requests the document's shape, the tokens the slice reader model produces
+from the BYTES deserialize to the value of the layout-free document. -/
+theorem C02_stream_end_to_end (enc : TextDe.Enc) (ty : TextDe.Ty) (fs : JFields) (gt : Bytes)
+    (hgt : Blank gt) (hv : JValidF fs gt) (hb : hasBom (jrenderF fs ++ gt) = false) (hp : SPlainF fs)
+    (hroot : Ty.isRoot ty = true) (hfit : Fits enc ty (.obj (toDoc fs))) :
+    (TextReader.sliceTokens (jrenderF fs ++ gt)).out = .end_ ∧
+    TextDe.deStream enc ty ((TextReader.sliceTokens (jrenderF fs ++ gt)).toks.map toRTok) = valueOf enc ty (toDoc fs) :=
+  ⟨(sliceLex_faithful fs gt hgt hv hb hp).1,
+   C02_stream_end_to_end_partial enc ty fs gt hv (splain_plainF fs hp) (sliceLex_faithful fs gt hgt hv hb hp) hroot hfit⟩
+
+/-- C02 end to end, both paths from the same BYTES: tape path = stream path = the document's value, for
+every valid layout. -/
+theorem C02_paths_end_to_end (enc : TextDe.Enc) (ty : TextDe.Ty) (fs : JFields) (gt : Bytes)
+    (hgt : Blank gt) (hv : JValidF fs gt) (hb : hasBom (jrenderF fs ++ gt) = false) (hp : SPlainF fs)
+    (hroot : Ty.isRoot ty = true) (hfit : FitsT enc false ty (.obj (toDoc fs))) :
+    ∃ T b, TextTape.parse (jrenderF fs ++ gt) = .ok T b ∧
+      TextDe.deTape enc ty (toTextDeTape T) = valueOf enc ty (toDoc fs) ∧
+      TextDe.deStream enc ty ((TextReader.sliceTokens (jrenderF fs ++ gt)).toks.map toRTok) = valueOf enc ty (toDoc fs) := by
+  obtain ⟨T, b, h1, h2⟩ := C02_tape_end_to_end enc ty fs gt hgt hv hb (splain_plainF fs hp) hroot hfit
+  exact ⟨T, b, h1, h2, (C02_stream_end_to_end enc ty fs gt hgt hv hb hp hroot (TextDe.fitsT_fits enc hfit)).2⟩
+
+/-- C02 end to end, streaming reader: the same for every fault-free read schedule and every buffer
+capacity that fits (`need ≤ cap`), via C07_stream_faithful. -/
+theorem C02_stream_end_to_end_scheduled (enc : TextDe.Enc) (ty : TextDe.Ty) (fs : JFields) (gt : Bytes)
+    (cap : Nat) (sched : List TextReader.Step)
+    (hgt : Blank gt) (hv : JValidF fs gt) (hb : hasBom (jrenderF fs ++ gt) = false) (hp : SPlainF fs)
+    (hw : TextReader.WfSched sched) (hnf : TextReader.NoFaults sched)
+    (hcap : TextReader.Spec.need (jrenderF fs ++ gt) ≤ cap)
+    (hroot : Ty.isRoot ty = true) (hfit : Fits enc ty (.obj (toDoc fs))) :
+    (TextReader.streamTokens cap sched (jrenderF fs ++ gt)).out = .end_ ∧
+    TextDe.deStream enc ty ((TextReader.streamTokens cap sched (jrenderF fs ++ gt)).toks.map toRTok)
+      = valueOf enc ty (toDoc fs) := by
+  obtain ⟨e1, e2, _⟩ := Jomini.Props.C07.C07_stream_eq_slice_fits (jrenderF fs ++ gt) cap sched hw hnf hcap
+  obtain ⟨s1, s2⟩ := C02_stream_end_to_end enc ty fs gt hgt hv hb hp hroot hfit
+  exact ⟨e2.trans s1, by rw [e1]; exact s2⟩
+
+/-- the stream sub-fragment is inhabited by C01's example document -/
+example : SPlainF exampleTree := by
+  have u : ∀ c : UInt8, TextTape.isBoundary c = false → TextTape.isBlank c = false → c ≠ 34 → c ≠ 64 → c ≠ 63 →
+      SafeScal (Scal.mk false [c]) := by
+    intro c h1 h2 h3 h4 h5
+    refine ⟨unq_valid c h1 h2 h3 h4, ?_⟩
+    intro _ c' r hc
+    simp only [List.cons.injEq] at hc
+    rw [← hc.1]; exact h5
+  simp only [exampleTree, SPlainF, SPlainV, SPlainVs, and_true, true_and]
+  exact ⟨u 97 (by decide +kernel) (by decide +kernel) (by decide) (by decide) (by decide),
+    ⟨u 49 (by decide +kernel) (by decide +kernel) (by decide) (by decide) (by decide),
+      ⟨u 98 (by decide +kernel) (by decide +kernel) (by decide) (by decide) (by decide),
+        u 99 (by decide +kernel) (by decide +kernel) (by decide) (by decide) (by decide)⟩⟩,
+    u 100 (by decide +kernel) (by decide +kernel) (by decide) (by decide) (by decide),
+    u 120 (by decide +kernel) (by decide +kernel) (by decide) (by decide) (by decide)⟩
 
 end Jomini.TextE2E
